@@ -46,3 +46,63 @@ initialization range -/
 def ranges (segs : List Seg) : List (Nat × Nat) := segs.map fun s => (s.pos, s.pos + s.size - 1)
 
 end DashLive.Indexing
+
+/-! ### durations, start time, start number (`Representation.load`, representation.py:181-249) -/
+namespace DashLive.Indexing
+
+/-- what the loop reads from one `moof`: `mfhd.sequence_number`, `tfdt` (if present) and the
+per-sample durations of the `trun` (0 = absent → `trex.default_sample_duration`) -/
+structure Frag where
+  seq : Nat
+  tfdt : Option Nat
+  sampleDurs : List Nat
+  deriving Repr, DecidableEq
+
+/-- loop state: (segment_start_time, segment_end_time, representation_start_time,
+start_number, durations so far) -/
+structure LoadSt where
+  segStart : Nat := 0
+  segEnd : Nat := 0
+  repStart : Option Nat := none
+  startNumber : Option Nat := none
+  durs : List Nat := []
+  deriving Repr, DecidableEq
+
+def fragDur (dflt : Nat) (f : Frag) : Nat :=
+  (f.sampleDurs.map fun d => if d = 0 then dflt else d).sum
+
+/-- one `moof` iteration (lines 181-205) -/
+def loadStep (dflt : Nat) (s : LoadSt) (f : Frag) : LoadSt :=
+  let dur := fragDur dflt f
+  let start := match f.tfdt with
+    | none => s.segEnd
+    | some t => t
+  let end0 := match f.tfdt with
+    | none => s.segEnd
+    | some t => t
+  { segStart := start
+    segEnd := end0 + dur
+    repStart := match s.repStart with | none => some start | some r => some r
+    startNumber := match s.startNumber with | none => some f.seq | some n => some n
+    durs := s.durs ++ [dur] }
+
+structure RepInfo where
+  durs : List Nat
+  startNumber : Nat          -- default 1 when there is no fragment
+  startTime : Nat
+  mediaDuration : Option Nat
+  segmentDuration : Option Nat
+  deriving Repr, DecidableEq
+
+/-- the values `Representation.load` leaves in the object (lines 231-249): the duration
+estimate divides the *start time of the last fragment* by the number of fragments minus one -/
+def loadRep (dflt : Nat) (frags : List Frag) : RepInfo :=
+  let s := frags.foldl (loadStep dflt) {}
+  let n := frags.length
+  { durs := s.durs
+    startNumber := s.startNumber.getD 1
+    startTime := s.repStart.getD 0
+    mediaDuration := if n + 1 > 2 then some s.durs.sum else none
+    segmentDuration := if n + 1 > 2 then some (s.segStart / (n - 1)) else none }
+
+end DashLive.Indexing
